@@ -183,6 +183,22 @@ class Interp:
         self.lpstore = {}      # id -> current value of a mutable LpAffineExpression object (PuLP's += is in place)
         ENUM_CLASSES.update(c for c in repo.classes if self._is_enum(c))
 
+    def enum_members_of(self, dom):
+        """iterating an Enum class of the package yields its members in definition order"""
+        if dom[0] == 'sym' and dom[1] in ENUM_CLASSES and dom[1] in self.repo.class_module:
+            try:
+                ms = self.repo.enum_members(self.repo.class_module[dom[1]], dom[1])
+            except Exception:
+                return dom
+            for n in self.repo.trees[self.repo.class_module[dom[1]]].body:
+                if isinstance(n, ast.ClassDef) and n.name == dom[1] and any(isinstance(m, ast.FunctionDef) and m.name in ('__iter__', '__new__', '_missing_') for m in n.body):
+                    return dom
+            vals = [v for _, v in ms]
+            if len(set(map(repr, vals))) != len(vals):
+                return dom                         # aliases (equal values) are skipped by Enum iteration: not modelled
+            return ('tuple', tuple(A(S(dom[1]), nm) for nm, _ in ms))
+        return dom
+
     def _is_enum(self, cname):
         rel = self.repo.class_module[cname]
         for n in self.repo.trees[rel].body:
@@ -563,8 +579,20 @@ class Interp:
             if c == FALSE:
                 return self.ex(n.orelse, fr)
             return ('ite', c, self.ex(n.body, fr), self.ex(n.orelse, fr))
+        if isinstance(n, ast.DictComp) and len(n.generators) == 1 and not n.generators[0].ifs:
+            dom0 = self.enum_members_of(self.ex(n.generators[0].iter, fr))
+            if is_literal_seq(dom0) and len(dom0[1]) <= 16:
+                items = []
+                for el in dom0[1]:
+                    env2 = dict(fr.env)
+                    fr2 = Frame(fr.func, env2)
+                    fr2.cls = fr.cls
+                    self.bind(n.generators[0].target, el, env2)
+                    items.append((self.ex(n.key, fr2), self.ex(n.value, fr2)))
+                if all(known_value(k_) is not None for k_, _ in items) and len({known_value(k_) for k_, _ in items}) == len(items):
+                    return ('dict', tuple(items))
         if isinstance(n, (ast.ListComp, ast.GeneratorExp, ast.SetComp)) and len(n.generators) == 1:
-            dom0 = self.ex(n.generators[0].iter, fr)
+            dom0 = self.enum_members_of(self.ex(n.generators[0].iter, fr))
             if dom0[0] == 'const' and isinstance(dom0[1], str) and len(dom0[1]) <= 8:
                 dom0 = ('tuple', tuple(C(ch) for ch in dom0[1]))        # for ch in 'ab'
             if is_literal_seq(dom0):
@@ -733,6 +761,17 @@ class Interp:
             env[tgt.id] = val
             if fr is not None:
                 fr.defdepth[tgt.id] = fr.loopdepth
+        elif isinstance(tgt, (ast.Tuple, ast.List)) and any(isinstance(e, ast.Starred) for e in tgt.elts):
+            # a, *rest = val   /  *init, last = val : fixed positions from either end, the starred name gets the slice between
+            st = [k for k, e in enumerate(tgt.elts) if isinstance(e, ast.Starred)]
+            if len(st) != 1:
+                raise Unknown('two starred targets')
+            k0, n_after = st[0], len(tgt.elts) - st[0] - 1
+            for k, e in enumerate(tgt.elts[:k0]):
+                self.bind(e, simp_top(I(val, C(k))), env, fr)
+            for k, e in enumerate(tgt.elts[k0 + 1:]):
+                self.bind(e, simp_top(I(val, C(k - n_after))), env, fr)
+            self.bind(tgt.elts[k0].value, CALL(S('list'), [('slice', val, C(k0) if k0 else NONE, C(-n_after) if n_after else NONE)]), env, fr)
         elif isinstance(tgt, (ast.Tuple, ast.List)):
             for k, e in enumerate(tgt.elts):
                 self.bind(e, simp_top(I(val, C(k))), env, fr)
